@@ -389,6 +389,39 @@ def repeat_cases(rng, enc, n_random):
     return out
 
 
+SHIFT_COUNTS = [65535, 65536, 65537, 1 << 32, 1 << 64, 1 << 100]
+
+
+def shiftbound_cases():
+    """left shifts at and beyond the bound of 65536 bits, through <<, _ and >> with a negative count; the count as a
+    literal, a constant defined before, and a symbol defined further down; operand constant, negative, address"""
+    B = lambda o, l, r: ("bin", o, l, r)
+    dec = lambda n: X.num(n, "SDecDot")
+    out = []
+    for c in SHIFT_COUNTS:
+        lay = {"base": 0o1000, "link": None, "pad": 2, "consts": {"cb0": c, "cb1": -c, "ca0": c, "ca1": -c}}
+        back = (lambda t: X.observe_wrap(B("BShr", ("grp", "paren", t), dec(65530)), 0)) if c <= X.MAX_SHIFT else (lambda t: t)
+        for a in (dec(1), dec(-3), ("sym", "lb0"), dec(0)):
+            for pos, neg in ((dec(c), dec(-c)), (("sym", "cb0"), ("sym", "cb1")), (("sym", "ca0"), ("sym", "ca1"))):
+                out.append(("shiftbound", back(B("BShl", a, pos)), lay, 1))
+                out.append(("shiftbound", back(B("BLsh", a, pos)), lay, 1))
+                out.append(("shiftbound", B("BShr", a, neg), lay, 1))
+                out.append(("shiftbound", B("BLsh", a, neg), lay, 1) if c <= X.MAX_SHIFT else ("shiftbound", B("BShl", a, ("grp", "paren", pos)), lay, 1))
+        # what was reported before the refusal stays; nothing after it is evaluated
+        one = dec(1)
+        if c > X.MAX_SHIFT:
+            out.append(("shiftbound", B("BAdd", ("grp", "paren", B("BDiv", one, dec(0))), ("grp", "paren", B("BShl", one, dec(c)))), lay, 2))
+            out.append(("shiftbound", B("BAdd", ("grp", "paren", B("BShl", one, dec(c))), ("grp", "paren", B("BDiv", one, dec(0)))), lay, 2))
+            out.append(("shiftbound", B("BMul", ("grp", "angle", B("BLsh", ("sym", "la0"), ("sym", "ca0"))), dec(0)), lay, 2))
+    lay = {"base": 0o1000, "link": None, "pad": 2, "consts": {"cb0": 40, "cb1": 16, "ca0": 64, "ca1": 17}}
+    one = dec(1)
+    for inner in (B("BLsh", one, ("sym", "cb0")), B("BShl", one, ("sym", "ca0")), B("BShl", one, ("sym", "ca1")), B("BAdd", B("BShl", one, ("sym", "cb1")), one)):
+        out.append(("shiftbound", B("BShl", one, ("grp", "paren", inner)), lay, 2))      # 1 << (1 _ 40.)
+        out.append(("shiftbound", B("BLsh", one, ("grp", "paren", inner)), lay, 2))
+        out.append(("shiftbound", B("BShr", one, ("un", "UNeg", ("grp", "paren", inner))) if False else B("BShr", one, ("grp", "paren", ("un", "UNeg", ("grp", "paren", inner)))), lay, 2))
+    return out
+
+
 def finalize(rng, tree, lay, enc):
     """choose how the value is observed so that the stored dword is defined; None if the tree is unusable (too big)"""
     syms, dot = layout_syms(lay)
@@ -441,6 +474,7 @@ def build_cases(rng, tier, enc, n_random):
             continue
         out.append((kind, ft, lay, X.depth_of(t)))
     out += repeat_cases(rng, enc, 60 if tier == "quick" else 1500)
+    out += shiftbound_cases()
     return out
 
 
